@@ -162,13 +162,17 @@ pub struct Target {
     pub busy: bool,
     /// quick tier: 0 = fresh cache only, 1 = the short list of histories, 2 = all 21
     pub level: u8,
+    /// many-queens positions (searches are slow: quick tier takes the first 80 at depth 3 only)
+    pub heavy: bool,
 }
 
 /// Deterministic generator of busy positions (fixed LCG seed, NOT re-randomised per run): used
 /// once, offline, to produce `mate_family.txt`; every listed FEN is re-classified by the solver
 /// at run time, so the file is only a list of candidates.
-pub fn generate(count: usize, seed: u64, minor_only: bool) -> Vec<(String, &'static str)> {
-    fn candidate(seed: u64, k: u64, minor_only: bool) -> Option<(String, &'static str)> {
+pub fn generate(count: usize, seed: u64, profile: u8) -> Vec<(String, &'static str)> {
+    let minor_only = profile == 1;
+    fn candidate(seed: u64, k: u64, profile: u8) -> Option<(String, &'static str)> {
+        let minor_only = profile == 1;
         let mut x = seed ^ k.wrapping_mul(0x9E3779B97F4A7C15) ^ 0xD1B54A32D192ED03;
         let mut rnd = move |m: u64| -> u64 {
             x ^= x << 13;
@@ -185,7 +189,28 @@ pub fn generate(count: usize, seed: u64, minor_only: bool) -> Vec<(String, &'sta
         }
         p.sq[wk] = super::oracle::K;
         p.sq[bk] = -super::oracle::K;
-        if minor_only {
+        if profile == 2 {
+            // heavy positions: the side to move has 7-10 queens (more than 128 pseudo-legal moves)
+            let strong: i8 = if rnd(2) == 0 { 1 } else { -1 };
+            let nq = 7 + rnd(4) as usize;
+            let mut placed = 0;
+            while placed < nq {
+                let sq = rnd(64) as usize;
+                if p.sq[sq] != 0 {
+                    continue;
+                }
+                p.sq[sq] = strong * 5;
+                placed += 1;
+            }
+            for _ in 0..(2 + rnd(5) as usize) {
+                let sq = rnd(64) as usize;
+                if p.sq[sq] != 0 || sq < 8 || sq >= 56 {
+                    continue;
+                }
+                p.sq[sq] = -strong * (1 + rnd(4) as i8);
+            }
+            p.white = strong > 0;
+        } else if minor_only {
             // endings without pawns, rooks and queens: one side has two or three minor pieces,
             // the other at most one (mates exist although most of these endings are drawn)
             let strong: i8 = if rnd(2) == 0 { 1 } else { -1 };
@@ -226,6 +251,16 @@ pub fn generate(count: usize, seed: u64, minor_only: bool) -> Vec<(String, &'sta
         if !c.interesting() {
             return None;
         }
+        if profile == 2 {
+            // keep only positions whose decisive moves ALL come late in the engine's generation
+            // order (index >= 128 of the pseudo-legal list): input selection, not an oracle
+            let key: &Vec<String> = if !c.mate_in_1.is_empty() { &c.mate_in_1 } else if !c.mate_in_2.is_empty() { &c.mate_in_2 } else { return None };
+            let b = crate::board::Board::from_fen(&p.fen());
+            let order: Vec<String> = b.get_all_moves().iter().map(|m| m.to_notation()).collect();
+            if order.len() <= 128 || !key.iter().all(|k| order.iter().position(|o| o == k).is_some_and(|ix| ix >= 128)) {
+                return None;
+            }
+        }
         Some((p.fen(), c.label()))
     }
     let mut out: Vec<(String, &'static str)> = vec![];
@@ -241,7 +276,7 @@ pub fn generate(count: usize, seed: u64, minor_only: bool) -> Vec<(String, &'sta
                     let mut local = vec![];
                     let mut k = block * BLOCK + t;
                     while k < (block + 1) * BLOCK {
-                        if let Some((f, l)) = candidate(seed, k, minor_only) {
+                        if let Some((f, l)) = candidate(seed, k, profile) {
                             local.push((k, f, l));
                         }
                         k += threads;
@@ -260,7 +295,7 @@ pub fn generate(count: usize, seed: u64, minor_only: bool) -> Vec<(String, &'sta
             }
         }
         block += 1;
-        let enough = if minor_only { out.iter().filter(|(_, l)| *l != "avoidable-threat").count() >= count } else { out.iter().filter(|(_, l)| *l == "mate-in-2").count() >= count };
+        let enough = if profile != 0 { out.iter().filter(|(_, l)| *l != "avoidable-threat").count() >= count } else { out.iter().filter(|(_, l)| *l == "mate-in-2").count() >= count };
         if enough || block > 4000 {
             break;
         }
@@ -299,7 +334,7 @@ pub fn targets(tier: &str) -> Vec<Target> {
         }
         let c = classify(&p);
         if c.interesting() {
-            v.push(Target { fen: p.fen(), class: c, busy: false, level: 2 });
+            v.push(Target { fen: p.fen(), class: c, busy: false, level: 2, heavy: false });
         }
     }
     // keep the class mix: take round-robin from the three classes up to the cap
@@ -326,7 +361,8 @@ pub fn targets(tier: &str) -> Vec<Target> {
     // searched from a fresh cache (a mate missed on a fresh cache is the most common failure)
     let (n2, n1, na) = if thorough { (1500, 300, 300) } else { (70, 15, 15) };
     let mut taken = [0usize; 3];
-    for (file, minor) in [(include_str!("mate_family.txt"), false), (include_str!("mate_family_minor.txt"), true)] {
+    let mut heavy_taken = 0usize;
+    for (file, minor, heavy) in [(include_str!("mate_family.txt"), false, false), (include_str!("mate_family_minor.txt"), true, false), (include_str!("mate_family_heavy.txt"), true, true)] {
         if minor {
             taken = [0; 3];
         }
@@ -342,9 +378,15 @@ pub fn targets(tier: &str) -> Vec<Target> {
             if !c.interesting() {
                 continue;
             }
-            let level = if taken[k] < [n2, n1, na][k] / if minor { 3 } else { 1 } { 1 } else { 0 };
+            let level = if !heavy && taken[k] < [n2, n1, na][k] / if minor { 3 } else { 1 } { 1 } else { 0 };
             taken[k] += 1;
-            out.push(Target { fen: p.fen(), class: c, busy: true, level });
+            if heavy {
+                heavy_taken += 1;
+                if !thorough && heavy_taken > 80 {
+                    continue;
+                }
+            }
+            out.push(Target { fen: p.fen(), class: c, busy: true, level, heavy });
         }
     }
     out
@@ -407,6 +449,9 @@ pub fn worker(args: &Args, w: &Worker) -> i32 {
             }
         };
         for depth in [3u8, 4] {
+            if t.heavy && depth == 4 && !thorough {
+                continue;
+            }
             for h in hs {
                 idx += 1;
                 if !w.mine(idx) {
